@@ -341,7 +341,74 @@ def run_a3(case, acc, order):
     acc.sample({'pca_store': {'n_sub': nsub, 'variant': variant}}) if order == 0 else None
 
 
-RUN = {'a1': run_a1, 'a2': run_a2, 'a3': run_a3}
+def run_a3x(case, acc, order):
+    """Waveform-derived features on stores the small A3 sweep does not reach: (mode 'big') thousands of
+    stored spikes in one request; (mode 'mixed') spikes stored on different channel pairs, asked for
+    channels that some spikes do not store at all (their waveform, hence feature, is zero there)."""
+    from phylib.io.model import load_model
+    mode = case['mode']
+    ns = 2400 if mode == 'big' else 9
+    spec = {'features': 'absent', 'tfeatures': 'absent', 'raw': False, 'fill': case['fill'],
+            'n_spikes': ns, 'whitening': 'identity', 'n_channels': 4}
+    with core.Scratch() as d:
+        tr = dsgen.make_dataset(d / 'ds', spec)
+        nsw = tr['spec']['nsw']
+        ids = np.arange(ns, dtype=np.int64)
+        pairs = [[1, 3]] if mode == 'big' else [[1, 3], [0, 2], [3, 0]]
+        chans = np.array([pairs[i % len(pairs)] for i in range(ns)], dtype=np.int32)
+        W = np.zeros((ns, nsw, 2))
+        for i in range(ns):
+            for t in range(nsw):
+                for c in range(2):
+                    W[i, t, c] = ((i % 13 + 1) * (t + 2) * (c + 3) + (i * i) % 11 * (t + 1) +
+                                  (7 * t * c + 3 * (i % 5) * c) + (i // 7) % 3) % 17 - 8
+        np.save(str(d / 'ds' / '_phy_spikes_subset.waveforms.npy'), W)
+        np.save(str(d / 'ds' / '_phy_spikes_subset.channels.npy'), chans)
+        np.save(str(d / 'ds' / '_phy_spikes_subset.spikes.npy'), ids)
+        m = load_model(tr['params_path'])
+        try:
+            acc.state()
+            if mode == 'big':
+                requests = [(list(range(ns)), [1, 3]), (list(range(0, ns, 1))[:2000], [3, 1])]
+            else:
+                requests = [(list(range(ns)), [1, 2, 0]), (list(range(ns)), [3]), ([0, 1, 3, 4, 6, 7], [2, 1]),
+                            (list(range(ns))[::-1], [0, 1, 2, 3])]
+            for sreq, creq in requests:
+                Wr = np.zeros((len(sreq), nsw, len(creq)))
+                for a, i in enumerate(sreq):
+                    for b, ch in enumerate(creq):
+                        for k in range(2):
+                            if chans[i, k] == ch:
+                                Wr[a, :, b] = W[i, :, k]
+                F, gaps = ref_pca(Wr)
+                try:
+                    got = m.get_features(np.array(sreq, dtype=np.int64), np.array(creq))
+                except Exception as e:
+                    got = e
+                degenerate = min(gaps) < 1e-6
+                acc.step(True, 'a3x:%s' % mode)
+                ok = isinstance(got, np.ndarray) and got.shape == F.shape
+                if ok and not degenerate:
+                    for c in range(F.shape[1]):
+                        for kk in range(3):
+                            a_, b_ = np.asarray(got[:, c, kk], dtype=np.float64), F[:, c, kk]
+                            tol = 1e-4 * max(1.0, float(np.abs(b_).max()))
+                            if not (np.allclose(a_, b_, rtol=1e-4, atol=tol) or
+                                    np.allclose(a_, -b_, rtol=1e-4, atol=tol)):
+                                ok = False
+                if not ok:
+                    kind = type(got).__name__ if isinstance(got, BaseException) else (
+                        'shape' if got.shape != F.shape else 'value')
+                    sig = '%s/pca-features/%s/%s' % (PROP, mode, kind)
+                    acc.violation(sig, core.make_record(
+                        PROP, 'pca-features', sig, case=case,
+                        op={'n_spikes_requested': len(sreq), 'channels': creq},
+                        expected=describe(F), observed=describe(got)), order)
+        finally:
+            m.close()
+
+
+RUN = {'a1': run_a1, 'a2': run_a2, 'a3': run_a3, 'a3x': run_a3x}
 
 
 def run_case(case, acc, order):
@@ -407,6 +474,7 @@ def explore(ctx):
     ctx.run_cases(run_case, cases, chunk=1, sweep='A2-model-queries')
     cases = [{'kind': 'a3', 'n_sub': n, 'variant': v, 'fill': ctx.seed}
              for n in (4, 5, 6, 7) for v in range(5 if ctx.thorough else 3)]
+    cases += [{'kind': 'a3x', 'mode': mo, 'fill': ctx.seed} for mo in ('big', 'mixed')]
     ctx.run_cases(run_case, cases, chunk=1, sweep='A3-pca-route')
     ctx.bounds = {'A1': {'n_spikes': [0, 1, 2], 'n_loc': [1, 2, 3], 'cols_alphabet': [0, 1, 2, -1],
                          'requested': 'repetition-free tuples of length 0..3 over {0,1,2,5}'},
